@@ -41,6 +41,49 @@
 			    SPEC_ERR_TXT_LEN(raw))                                                     \
 		 : 1)
 
+/* ---- host-order well-formedness of a delivered PDU: what every consumer of rtr_receive_pdu relies on */
+#define HP(b) ((const struct pdu_header *)(b))
+#define HOST_ERR_ENC(b) (((const struct pdu_error *)(b))->len_enc_pdu)
+#define HOST_ERR_TXT(b) (*(const uint32_t *)(((const struct pdu_error *)(b))->rest + (HOST_ERR_ENC(b) <= SPEC_MAX_PDU_LEN - 16 ? HOST_ERR_ENC(b) : 0)))
+#define HOST_LEN_OK(b)                                                                                 \
+	(HP(b)->type == SPEC_PDU_SERIAL_NOTIFY    ? HP(b)->len == 12                                   \
+	 : HP(b)->type == SPEC_PDU_SERIAL_QUERY   ? HP(b)->len == 12                                   \
+	 : HP(b)->type == SPEC_PDU_RESET_QUERY    ? HP(b)->len == 8                                    \
+	 : HP(b)->type == SPEC_PDU_CACHE_RESPONSE ? HP(b)->len == 8                                    \
+	 : HP(b)->type == SPEC_PDU_IPV4           ? HP(b)->len == 20                                   \
+	 : HP(b)->type == SPEC_PDU_IPV6           ? HP(b)->len == 32                                   \
+	 : HP(b)->type == SPEC_PDU_EOD            ? ((HP(b)->ver == 0 && HP(b)->len == 12) || (HP(b)->ver == 1 && HP(b)->len == 24)) \
+	 : HP(b)->type == SPEC_PDU_CACHE_RESET    ? HP(b)->len == 8                                    \
+	 : HP(b)->type == SPEC_PDU_ROUTER_KEY     ? HP(b)->len == 123                                  \
+	 : HP(b)->type == SPEC_PDU_ERROR                                                               \
+		 ? (HP(b)->len >= 16 && HP(b)->len <= SPEC_MAX_PDU_LEN && 16ull + HOST_ERR_ENC(b) <= HP(b)->len && \
+		    16ull + HOST_ERR_ENC(b) + HOST_ERR_TXT(b) == HP(b)->len)                           \
+		 : 0)
+
+/*
+ * rtr_receive_pdu -- the contract every caller is verified against (enforced on the body by
+ * units/receive.c, which additionally checks the raw-byte level facts of C04/C13/C14).
+ *   ov / oh / os: version, has_received_pdus, state before the call.
+ */
+#define RECV_RET_OK(r) ((r) == 0 || (r) == -1 || (r) == -2 || (r) == -3 || (r) == -4)
+#define RECV_POST(r, s, b, ov, oh, os)                                                                 \
+	(RECV_RET_OK(r) && (s)->version <= (ov) && ((s)->version < (ov) ? (!(oh) && (ov) == 1 && (s)->version == 0 && (s)->has_received_pdus) : 1) && \
+	 ((r) == 0 ? (HOST_LEN_OK(b) && (HP(b)->ver == (s)->version || HP(b)->type == SPEC_PDU_ERROR) && (s)->state == (os) && \
+		      (os) != RTR_SHUTDOWN && (s)->has_received_pdus)                                  \
+		   : 1) &&                                                                             \
+	 (((r) == -2 || (r) == -3 || (r) == -4) ? (s)->state == (os) : 1) &&                           \
+	 ((r) == -1 ? ((s)->state == (os) || (s)->state == RTR_ERROR_TRANSPORT || (s)->state == RTR_ERROR_FATAL) : 1) && \
+	 ((oh) ? (s)->has_received_pdus : 1) &&                                                          \
+	 ((os) == RTR_SHUTDOWN ? ((r) == -1 && (s)->version == (ov) && (s)->has_received_pdus == (oh) && (s)->state == (os)) : 1))
+
+static int rtr_receive_pdu(struct rtr_socket *rtr_socket, void *pdu, const size_t pdu_len, const time_t timeout)
+__CPROVER_requires(__CPROVER_rw_ok(rtr_socket, sizeof(*rtr_socket)) && pdu_len >= 3248 && __CPROVER_rw_ok(pdu, 3248))
+__CPROVER_requires(rtr_socket->version <= 1 && __CPROVER_r_ok(rtr_socket->tr_socket, sizeof(struct tr_socket)))
+__CPROVER_ensures(RECV_POST(__CPROVER_return_value, rtr_socket, pdu, __CPROVER_old(rtr_socket->version),
+			    __CPROVER_old(rtr_socket->has_received_pdus), __CPROVER_old(rtr_socket->state)))
+__CPROVER_assigns(__CPROVER_object_upto(pdu, 3248), rtr_socket->version, rtr_socket->has_received_pdus, rtr_socket->state,
+		  __CPROVER_object_whole(&g_env));
+
 /* an Error Report as handed to the transport: header, code, encapsulated copy, text (RFC 8210 s. 5.10) */
 #define ERRPDU_WELLFORMED(tx, txlen, ver, code, raw, enclen)                                           \
 	((txlen) >= 16 + (enclen) && (txlen) <= SPEC_MAX_PDU_LEN && RAW_VER(tx) == (ver) && RAW_TYPE(tx) == SPEC_PDU_ERROR && \
